@@ -13,6 +13,8 @@ def compare(expected, got):
         if got["outcome"] != "exception":
             return ("execute:unexpected-exception-fails-the-request", "the reference fails the whole request (%s) but the library returned %s"
                     % (expected[1], got["outcome"]))
+        if expected[1] == "unexpected" and not (isinstance(got["exc"], RuntimeError) and str(got["exc"]) == "unexpected"):
+            return ("execute:unexpected-exception-surfaces-unchanged", "the resolver's RuntimeError('unexpected') was replaced by %r" % (got["exc"],))
         return None
     if kind == "request-error":
         if got["outcome"] != "result" or got["result"].data is not None or not got["result"].errors:
